@@ -14,11 +14,15 @@ open HdVerif HdVerif.Bits HdVerif.Gen HdVerif.Codec
 
 /-! ## what is accepted -/
 
-/-- **Validation = specification** (`validate_sound` and its converse).  For every transfer syntax
+/-- **Validation = its acceptance relation** (`validate_sound` and its converse).  For every transfer syntax
 string, every integer bits allocated / stored / pixel representation, every photometric
-interpretation string, planar configuration, array shape and dtype: the decision tree of the
+interpretation string, planar configuration, array rank, shape and dtype: the decision tree of the
 *current* `encode_frame` accepts a request and hands it to encoder `r` iff the request satisfies
-`AcceptSpec` (written from the docstring and PS3.5 section 8) with that `r`. -/
+`AcceptSpec` with that `r`.  `AcceptSpec` is the decision tree **flattened into one relation per transfer-syntax
+family** -- it follows the docstring and PS3.5 section 8 where the code does, and the code where it has rules of its own
+(the 32-pixel limit of openjpeg, cells of `ceil(bits allocated / 8)` bytes, RLE left to pydicom): it is the form in
+which the refusal theorems below are provable, not an independent standard-side specification.  The standard-side
+content is `Representable` (`accepted_is_representable_partial`, one direction). -/
 theorem encode_accepts_iff_spec (p : Params) (x : Frame) (r : Int) :
     encodeRoute p x = .ok r ↔ AcceptSpec (Req.of p x) r :=
   route_iff (Req.of p x) r
@@ -106,9 +110,53 @@ theorem refuses_float (p : Params) (x : Frame) (hts : p.ts ∈ nativeSyntaxes) (
 /-- Any syntax: bits stored outside `1 .. bits allocated` is refused. -/
 theorem refuses_bits_stored_out_of_range (p : Params) (x : Frame)
     (h : p.bitsStored < 1 ∨ p.bitsAllocated < p.bitsStored) : ∃ e, encodeRoute p x = .error e := by
-  rw [refused_iff]; rintro ⟨r, ⟨_, _, _, h1, h2⟩, _⟩
+  rw [refused_iff]; rintro ⟨r, ⟨_, _, _, _, h1, h2⟩, _⟩
   simp only [Req.of] at h1 h2
   omega
+
+/-- Any syntax, any request (stated over the raw inputs of the decision tree, so also for ranks a `Frame` cannot express):
+an array that is neither `(rows, columns)` nor `(rows, columns, samples)` is refused (a 4-D array used to be encoded
+natively and decoded to a different array: finding C07-rank-unchecked, fixed). -/
+theorem refuses_other_ranks (q : Req) (h : q.ndim ≠ 2 ∧ q.ndim ≠ 3) : ∃ e, q.route = .error e := by
+  cases hr : q.route with
+  | error e => exact ⟨e, rfl⟩
+  | ok r =>
+    obtain ⟨⟨⟨hnd, _⟩, _⟩, _⟩ := (route_iff q r).mp hr
+    omega
+
+/-- Any syntax: a frame with 0 or more than 65535 rows or columns -- which the Rows / Columns attributes cannot describe and
+`decode_frame` refuses -- is refused (finding C07-shape-out-of-range, fixed). -/
+theorem refuses_shape_out_of_range (q : Req) (h : q.rows < 1 ∨ 65535 < q.rows ∨ q.cols < 1 ∨ 65535 < q.cols) :
+    ∃ e, q.route = .error e := by
+  cases hr : q.route with
+  | error e => exact ⟨e, rfl⟩
+  | ok r =>
+    obtain ⟨⟨⟨_, h1, h2, h3, h4⟩, _⟩, _⟩ := (route_iff q r).mp hr
+    omega
+
+/-- ... hence every accepted frame has a shape pydicom's decoder takes. -/
+theorem accepted_shape_in_range (p : Params) (x : Frame) (r : Int) (h : encodeRoute p x = .ok r) :
+    shapeInRange x.rows x.cols = true := by
+  have hs := route_sound (Req.of p x) r (by rw [← encodeRoute_eq]; exact h)
+  exact shapeInRange_of_shapeOK p x hs.1.1
+
+/-- The 1-bit JPEG 2000 lossless route (4) is reached only with a bool array or an integer array whose samples are all
+0 or 1 (smallest >= 0, largest <= 1): on these the cast `array.astype(bool)` -- which the translation drops by exact
+text -- changes no value (finding C07-j2k-onebit-one-sided-check, fixed: `-1` and `0.5` used to pass). -/
+theorem one_bit_j2k_values_binary (q : Req) (h : q.route = .ok 4) :
+    q.dtypeName = "bool" ∨ ((q.kind = "u" ∨ q.kind = "i") ∧ 0 ≤ q.arrayMin ∧ q.arrayMax ≤ 1) := by
+  obtain ⟨_, hc⟩ := (route_iff q 4).mp h
+  rcases hc with hn | hb | hr | hj
+  · rcases hn.2.2 with h1 | h1
+    · exact absurd h1.2.2 (by decide)
+    · exact absurd h1.2.2.2.2.2 (by decide)
+  · exact absurd hb.2.2.2.2.2 (by decide)
+  · exact absurd hr.2.2 (by decide)
+  · rcases hj.2.2.2.2 with h4 | h4
+    · by_cases hb : q.dtypeName = "bool"
+      · exact Or.inl hb
+      · exact Or.inr (h4.2.2.1 hb)
+    · exact absurd h4.2 (by decide)
 
 /-- Native: when fewer bits are stored than allocated, a frame with a sample outside the stored range (already the
 smallest or the largest one) is refused. -/
@@ -148,7 +196,7 @@ theorem refuses_unsupported_syntax (p : Params) (x : Frame)
 than 1 or 3. -/
 theorem refuses_colour_without_planar_configuration (p : Params) (x : Frame) (h3 : x.ndim = 3)
     (hp : p.planar = none) : ∃ e, encodeRoute p x = .error e := by
-  rw [refused_iff]; rintro ⟨r, ⟨hpl, _⟩, _⟩
+  rw [refused_iff]; rintro ⟨r, ⟨_, hpl, _⟩, _⟩
   have := hpl (by simp only [Req.of]; exact (ndim_three_iff x).mpr h3)
   simp only [Req.of, hp] at this
   rcases this with h | h <;> cases h
@@ -196,11 +244,14 @@ theorem native_bits_roundtrip (c : CodecImpl) (conv : List Int → List Int) (p 
 /- Full statement (does NOT hold on the current code, see `counterexample_ybr_full`):
    native_cells_roundtrip : x.WF → p.ts ∈ nativeSyntaxes → p.bitsAllocated ≠ 1 →
      encodeFrame c p x = .ok bytes → decodeFrame c conv p x.rows x.cols x.spp bytes = .ok x.data -/
-/-- **Native frames of >= 8 bits** (`native_roundtrip`): for every shape, every dtype that is accepted
-(bool, uint8/16/32, int8/16/32 with matching bits allocated and pixel representation), every bits
-stored and **every content** -- whatever is accepted has all samples within the stored bits, and
-`decode_frame (encode_frame x) = x`, and pydicom's decode of the bytes as a one-frame image is `x` as
-well.  Partial: photometric interpretations that pydicom converts to RGB while decoding (`YBR_FULL`
+/-- **Native frames of >= 8 bits** (`native_roundtrip`): for every accepted shape (2-D or 3-D, 1..65535 rows and
+columns -- anything else is refused, `refuses_other_ranks`, `refuses_shape_out_of_range`; the decoder model refuses
+such shapes as pydicom does), every dtype of the model that is accepted (bool, uint8/16/32, int8/16/32 with matching
+bits allocated and pixel representation; 64-bit cells are outside the model), every bits stored and **every content** --
+whatever is accepted has all samples within the stored bits, and `decode_frame (encode_frame x) = x` as a list of
+values in C order (the returned array has pydicom's dtype for the bits allocated, bool comes back as 0 / 1 in uint8,
+and the shape `(rows, columns[, samples])` handed to `decode_frame`; frame index 0), and pydicom's decode of the bytes
+as a one-frame image is `x` as well.  Partial: photometric interpretations that pydicom converts to RGB while decoding (`YBR_FULL`
 with 3 samples) are excluded -- exactly the region of the open finding C07-ybr-full-decoded-as-rgb -- and so are
 bits-allocated values that are not a multiple of 8 (`counterexample_bits_allocated_12`). -/
 theorem native_cells_roundtrip_partial (c : CodecImpl) (conv : List Int → List Int) (p : Params) (x : Frame)
@@ -213,10 +264,12 @@ theorem native_cells_roundtrip_partial (c : CodecImpl) (conv : List Int → List
 
 /-- **Every sample of an accepted frame fits the stored bits** -- natively by `encode_frame`'s own check (against the
 smallest and largest sample when fewer bits are stored than allocated, by the dtype otherwise); on the encapsulated
-routes because the encoder validates the frame against the parameters it is handed (`Validating`, exercised on
-the real pydicom encoders) and is handed the request's own bits stored (`encode_hands_off_request`). -/
-theorem accepted_samples_fit_stored (c : CodecImpl) (hv : c.Validating) (p : Params) (x : Frame) (bytes : List Nat)
-    (hwf : x.WF) (hba : p.bitsAllocated ≠ 1) (hmul : p.bitsAllocated % 8 = 0) (henc : encodeFrame c p x = .ok bytes) :
+routes RLE / JPEG-LS (`encoderRegion`) because the encoder validates the frame against the parameters it is handed
+(`ValidatingOn encoderRegion`, exercised on the real pydicom encoders) and is handed the request's own bits stored
+(`encode_hands_off_request`). -/
+theorem accepted_samples_fit_stored (c : CodecImpl) (hv : c.ValidatingOn encoderRegion) (p : Params) (x : Frame)
+    (bytes : List Nat) (hwf : x.WF) (hreg : p.ts ∈ nativeSyntaxes ∨ encoderRegion p) (hba : p.bitsAllocated ≠ 1)
+    (hmul : p.bitsAllocated % 8 = 0) (henc : encodeFrame c p x = .ok bytes) :
     FitsStored p x := by
   by_cases hts : p.ts ∈ nativeSyntaxes
   · exact (native_cells_decode c id p x bytes hwf hts hba hmul henc).1
@@ -241,17 +294,22 @@ theorem accepted_samples_fit_stored (c : CodecImpl) (hv : c.Validating) (p : Par
       · rcases h.2.2.2.2 with h4 | h4
         · exact absurd h4.2.2.2 (by decide)
         · exact absurd h4.2 (by decide)
-    · exact hv p x bytes hcodec
+    · exact hv p x bytes (hreg.resolve_left hts) hcodec
 
-/- Full statement: as below without `hnc`. -/
-/-- **Encapsulated lossless syntaxes**: if the codec behind the route is lossless (law `Lossless`, exercised
-on the real RLE and JPEG-LS codecs by the correspondence), every frame `encode_frame` accepts and the
-codec accepts comes back from `decode_frame` unchanged.  Partial in the same way (`YBR_FULL` with RLE). -/
-theorem encapsulated_roundtrip_partial (c : CodecImpl) (hc : c.Lossless) (conv : List Int → List Int) (p : Params)
-    (x : Frame) (bytes : List Nat) (hts : isEncapsulated p.ts = true) (hnc : convertsColour p.pi x.spp = false)
+/- Full statement: as below without `hnc`, and for RLE without the restriction of `codecRegion` to
+   `bits stored > bits allocated - 8`. -/
+/-- **Encapsulated lossless syntaxes, on the region where the real codecs are lossless** (`codecRegion`: JPEG-LS Lossless;
+RLE Lossless with `bits stored > bits allocated - 8`): if the codec behind the route obeys the law there
+(`LosslessOn codecRegion`: the correspondence demands it of the real pydicom RLE and JPEG-LS codecs on exactly this
+region and reports RLE outside it as the open finding C07-rle-narrow-stored), every frame `encode_frame` accepts and the
+codec accepts comes back from `decode_frame` unchanged.  Partial: `YBR_FULL` with RLE (`hnc`), the RLE region. -/
+theorem encapsulated_roundtrip_partial (c : CodecImpl) (hc : c.LosslessOn codecRegion) (conv : List Int → List Int)
+    (p : Params) (x : Frame) (bytes : List Nat) (hD : codecRegion p) (hnc : convertsColour p.pi x.spp = false)
     (henc : encodeFrame c p x = .ok bytes) :
     decodeFrame c conv p x.rows x.cols x.spp bytes = .ok x.data := by
-  have := encapsulated_decode c hc conv p x bytes hts henc
+  have hts : isEncapsulated p.ts = true := by
+    rcases hD with ⟨h, _⟩ | h <;> rw [h] <;> decide
+  have := encapsulated_decode c codecRegion hc conv p x bytes hts hD henc
   simpa [hnc] using this
 
 /-- **Open finding** (C07-ybr-full-decoded-as-rgb): a `YBR_FULL` colour frame is accepted by the native
@@ -288,6 +346,87 @@ theorem counterexample_ybr_full (c : CodecImpl) (conv : List Int → List Int) (
 
 /-- a stand-in codec that refuses everything (the native examples never reach it) -/
 def noCodec : CodecImpl := ⟨fun _ _ _ _ _ => .error .other, fun _ _ _ _ _ => .error .other⟩
+
+/-! ### a non-trivial codec that obeys the laws, and encapsulated requests that reach it -/
+
+/-- zig-zag: an injective coding of integers as naturals -/
+def zig (v : Int) : Nat := if 0 ≤ v then (2 * v).toNat else (-2 * v - 1).toNat
+def zag (n : Nat) : Int := if n % 2 = 0 then ((n / 2 : Nat) : Int) else -(((n + 1) / 2 : Nat) : Int)
+
+theorem zag_zig (v : Int) : zag (zig v) = v := by
+  unfold zig zag
+  by_cases h : 0 ≤ v
+  · rw [if_pos h]
+    have : (2 * v).toNat % 2 = 0 := by omega
+    rw [if_pos this]; omega
+  · rw [if_neg h]
+    have : ¬ (-2 * v - 1).toNat % 2 = 0 := by omega
+    rw [if_neg this]; omega
+
+/-- the samples fit the stored bits (`FitsStored` as a test) -/
+def fitsStoredB (p : Params) (x : Frame) : Bool :=
+  x.data.all (fun v =>
+    if p.pixelRepresentation = 1 then
+      decide (-(2 : Int) ^ (p.bitsStored.toNat - 1) ≤ v ∧ v < (2 : Int) ^ (p.bitsStored.toNat - 1))
+    else decide (0 ≤ v ∧ v < (2 : Int) ^ p.bitsStored.toNat))
+
+/-- a stand-in codec that is **not** trivial: the encoder validates the samples against the stored bits it is told
+(as pydicom's encoders do) and writes a one-byte header followed by the samples; the decoder checks the header -/
+def tagCodec : CodecImpl :=
+  ⟨fun p _ _ _ x => if fitsStoredB p x then .ok (0x54 :: x.data.map zig) else .error .value,
+   fun _ _ _ _ b => match b with
+     | 0x54 :: t => .ok (t.map zag)
+     | _ => .error .value⟩
+
+theorem tagCodec_lossless (D : Params → Prop) : tagCodec.LosslessOn D := by
+  intro p x bytes _ h
+  simp only [tagCodec] at h ⊢
+  split at h
+  · cases h
+    simp only [List.map_map]
+    congr 1
+    conv => rhs; rw [← List.map_id x.data]
+    apply List.map_congr_left
+    intro v _
+    exact zag_zig v
+  · cases h
+
+theorem tagCodec_validating (D : Params → Prop) : tagCodec.ValidatingOn D := by
+  intro p x bytes _ h
+  simp only [tagCodec] at h
+  split at h
+  · rename_i hf
+    unfold fitsStoredB at hf
+    rw [List.all_eq_true] at hf
+    intro v hv
+    have := hf v hv
+    by_cases hp : p.pixelRepresentation = 1
+    · simp only [hp, ↓reduceIte, decide_eq_true_eq] at this ⊢; exact this
+    · simp only [hp, ↓reduceIte, decide_eq_true_eq] at this ⊢; exact this
+  · cases h
+
+/-- RLE Lossless, 16 bits allocated, 12 stored (inside `codecRegion`): the request reaches the codec ... -/
+def rleP : Params := ⟨rle, 16, 12, "MONOCHROME2", 0, none⟩
+def rleX : Frame := ⟨2, 3, none, .u16, [0, 1, 4095, 256, 255, 7]⟩
+example : encodeFrame tagCodec rleP rleX = .ok [0x54, 0, 2, 8190, 512, 510, 14] := by decide
+/-- ... and the round-trip theorem applies to it (hypotheses met by a codec that accepts) -/
+example : decodeFrame tagCodec id rleP 2 3 1 [0x54, 0, 2, 8190, 512, 510, 14] = .ok [0, 1, 4095, 256, 255, 7] :=
+  encapsulated_roundtrip_partial tagCodec (tagCodec_lossless _) id rleP rleX _ (Or.inl ⟨rfl, by decide⟩) (by decide) (by decide)
+/-- a sample outside the 12 stored bits is refused by the validating encoder, and `accepted_samples_fit_stored` applies to
+what is accepted -/
+example : (encodeFrame tagCodec rleP ⟨2, 3, none, .u16, [0, 1, 4096, 256, 255, 7]⟩).toOption = none := by decide
+example : FitsStored rleP rleX :=
+  accepted_samples_fit_stored tagCodec (tagCodec_validating _) rleP rleX _ (by unfold Frame.WF rleX; decide)
+    (Or.inr (Or.inl rfl)) (by decide) (by decide) (by decide : encodeFrame tagCodec rleP rleX = .ok [0x54, 0, 2, 8190, 512, 510, 14])
+/-- JPEG-LS Lossless, RGB 8 bit -/
+def jlsP : Params := ⟨jpegLs, 8, 8, "RGB", 0, some 0⟩
+def jlsX : Frame := ⟨1, 2, some 3, .u8, [255, 0, 0, 1, 2, 3]⟩
+example : decodeFrame tagCodec id jlsP 1 2 3 [0x54, 510, 0, 0, 2, 4, 6] = .ok [255, 0, 0, 1, 2, 3] :=
+  encapsulated_roundtrip_partial tagCodec (tagCodec_lossless _) id jlsP jlsX _ (Or.inr rfl) (by decide) (by decide)
+/-- outside the region (RLE, 16 allocated, 8 stored) the theorem says nothing: there the real codec breaks the law
+(open finding C07-rle-narrow-stored) -/
+example : ¬ codecRegion ⟨rle, 16, 8, "MONOCHROME2", 0, none⟩ := by
+  unfold codecRegion rle jpegLs; simp
 
 /-- 2x3 uint16 frame with extremes, explicit VR little endian -/
 example : encodeFrame noCodec ⟨"1.2.840.10008.1.2.1", 16, 16, "MONOCHROME2", 0, none⟩
